@@ -406,5 +406,40 @@ VOCABS = {
 }
 
 
+def random_vocab(rnd):
+    stems = ['ld', 'st', 'mov', 'add', 'jmp', 'br', 'x', 'cp', 'in', 'out', 'nop', 'sh']
+    used = set()
+
+    def name(dotted=True):
+        for _ in range(50):
+            s = rnd.choice(stems)
+            r = rnd.random()
+            if r < 0.25:
+                s += rnd.choice(['i', 'r', 'x', '16', '_l'])
+            elif r < 0.4 and dotted:
+                s += '.' + rnd.choice(['b', 'w', 'l', 'all'])
+            if rnd.random() < 0.15:
+                s = s.upper() if rnd.random() < 0.5 else s.capitalize()
+            if s.lower() not in used and s.lower() not in ('org', 'fill', 'byte', 'zero'):
+                used.add(s.lower())
+                return s
+        return 'q%d' % len(used)
+    v = dict(mnemonics=[name() for _ in range(rnd.randint(1, 6))])
+    if rnd.random() < 0.7:
+        v['registers'] = [name(dotted=False).lower() for _ in range(rnd.randint(1, 4))]
+    else:
+        v['registers'] = []
+    if rnd.random() < 0.6:
+        v['macros'] = [name() for _ in range(rnd.randint(1, 3))]
+    if rnd.random() < 0.6:
+        v['predefined'] = [name(dotted=False) for _ in range(rnd.randint(1, 3))]
+    return v
+
+
 def shapes(tier, seed):
-    return [VocabShape(f'vocab:{k}', **v) for k, v in VOCABS.items()]
+    import random
+    S = [VocabShape(f'vocab:{k}', **v) for k, v in VOCABS.items()]
+    rnd = random.Random(2000 + seed)
+    for i in range(12 if tier == 'quick' else 300):
+        S.append(VocabShape(f'rnd:{seed}:{i}', **random_vocab(rnd)))
+    return S
